@@ -649,6 +649,13 @@ pub struct IdpfPublicShare<VI, VL> {
     leaf_correction_word: IdpfCorrectionWord<VL>,
 }
 
+impl<VI, VL> IdpfPublicShare<VI, VL> {
+    /// The input bit length this public share was generated for.
+    pub(crate) fn bits(&self) -> usize {
+        self.inner_correction_words.len() + 1
+    }
+}
+
 impl<VI, VL> ConstantTimeEq for IdpfPublicShare<VI, VL>
 where
     VI: ConstantTimeEq,
